@@ -37,6 +37,7 @@ class Built:
         self.pool = pool or []   # every (thunk, description) built, not only the claimed ones
         # the generator's OWN record of who imported whom, in order (id(module) -> [imported modules]); None for modules it did not assemble
         self.imports = imports
+        self.own = {}            # id(module) -> the patterns the generator declared as that module's axioms, in order, repeats dropped
 
     def declared_axioms(self):
         """axioms the module declares, imported modules first (in import order, recursively), by the generator's own record of the
@@ -48,7 +49,7 @@ class Built:
             out = []
             for c in self.imports.get(id(m), []):
                 out.extend(walk(c))
-            out.extend(m.get_axioms())
+            out.extend(self.own[id(m)] if id(m) in self.own else m.get_axioms())
             return out
         return walk(self.mod)
 
@@ -214,8 +215,27 @@ def random_module(rng: random.Random, max_claims=6, with_imports=True, syms=SYMS
         A = pat(rng, 1, 0.0, 0.3, syms); B = pat(rng, 1, 0.0, 0.3, syms)
         axioms += [P.Implies(A, B), A]
         tags.add('mp_axioms')
-    for a in axioms:
-        mod.add_axiom(a)
+    own = {}
+
+    def declare(m, pats, bulk=False):
+        lst = own.setdefault(id(m), [])
+        for a_ in pats:
+            if not any(a_ == b_ for b_ in lst):
+                lst.append(a_)
+        if bulk:
+            m.add_axioms(list(pats))
+        else:
+            for a_ in pats:
+                m.add_axiom(a_)
+    declare(mod, axioms)
+    if axioms and rng.random() < 0.3:
+        # a bulk declaration that names an axiom the module already has BEFORE new ones (what adding the assumptions of a second
+        # rewrite step does): the repeated one is not declared twice, the new ones are declared
+        bulk = [rng.choice(axioms), pat(rng, 1, 0.2, 0.3, syms)]
+        if rng.random() < 0.5:
+            bulk += [rng.choice(axioms), pat(rng, 1, 0.2, 0.3, syms)]
+        declare(mod, bulk, bulk=True)
+        tags.add('bulk_declaration_with_repeat_first')
     own_axioms = mod.get_axioms()
     desc.append('axioms: ' + '; '.join(str(a) for a in own_axioms))
 
@@ -513,7 +533,9 @@ def random_module(rng: random.Random, max_claims=6, with_imports=True, syms=SYMS
         mod.add_proof_expression(chosen[i_][0])
     if len(chosen) >= 2:
         tags.add('claims>=2')
-    return Built(mod, tags, desc, pool, imports)
+    built = Built(mod, tags, desc, pool, imports)
+    built.own = own
+    return built
 
 
 def nested_axioms_module(rng: random.Random, syms=SYMS) -> Built:
